@@ -1372,7 +1372,8 @@ int rtr_sync(struct rtr_socket *rtr_socket)
 		rtr_change_socket_state(rtr_socket, RTR_ERROR_NO_INCR_UPDATE_AVAIL);
 		return RTR_ERROR;
 	case CACHE_RESPONSE:
-		rtr_handle_cache_response_pdu(rtr_socket, pdu);
+		if (rtr_handle_cache_response_pdu(rtr_socket, pdu) == RTR_ERROR)
+			return RTR_ERROR;
 		break;
 	default:
 		RTR_DBG("Expected Cache Response PDU but received PDU Type (Type: %u)",
